@@ -1112,21 +1112,24 @@ def c02replay (sizes : List Nat) (events : List String) : Except String Sess :=
     else .ok s) (sessInit sizes)
 
 def opC02Session : List String → Res
-  | [_limit, files, _script, obs] => match parseSizes files with
+  | [_limit, files, script, obs] => match parseSizes files with
     | some sizes =>
       let events := (obs.splitOn ",").filter (· ≠ "")
       let sent := events.filterMap fun e => if e.startsWith "c" then (e.drop 1).toString.toNat? else none
       let sawSyn := events.contains "syn"
+      -- a script that ends with E reads until the close handshake (or 2.5 s of silence): the session
+      -- of a client that keeps reading must end by itself
+      let readsToEnd := (script.splitOn ",").getLast? == some "E" ∧ !sent.isEmpty
       let deliveredOf (c : Nat) := (events.filter (·.startsWith s!"l{c}.")).length
       let complete := sent.all fun c => deliveredOf c == sizes.getD c 0
       match c02replay sizes events with
       | .ok s =>
-        { m := obs, s := if !sawSyn then "-" else if complete then obs else "INCOMPLETE-AT-CLOSE",
+        { m := obs, s := if !sawSyn then (if readsToEnd then "SESSION-DID-NOT-CLOSE" else "-") else if complete then obs else "INCOMPLETE-AT-CLOSE",
           g := if s.lateRecv then "idle-between-commands" else "-",
           t := joinWith "," ((if sent.length > 1 then ["multi-command"] else []) ++ (if sawSyn then ["closed"] else [])
             ++ (if s.lateRecv then ["late-command"] else []) ++ (if sizes.any (· > 100) then ["queue-full"] else [])
             ++ (if events.contains "idle" then ["idle-seen"] else [])) }
-      | .error e => { m := e, s := if !sawSyn then "-" else if complete then obs else "INCOMPLETE-AT-CLOSE" }
+      | .error e => { m := e, s := if !sawSyn then (if readsToEnd then "SESSION-DID-NOT-CLOSE" else "-") else if complete then obs else "INCOMPLETE-AT-CLOSE" }
     | none => bad
   | _ => bad
 
